@@ -100,8 +100,12 @@ func (c *Client) readLoop() {
 		}
 		auto := c.AutoAck
 		onPub := c.OnPublish
-		c.broadcast()
+		if p.Type != mqttx.PUBLISH && p.Type != mqttx.PUBREL {
+			c.broadcast()
+		}
 		c.mu.Unlock()
+		// For PUBLISH and PUBREL the automatic acknowledgement is written BEFORE anybody waiting for the packet is
+		// woken: whoever has seen the packet may rely on its acknowledgement preceding anything he sends next.
 		switch p.Type {
 		case mqttx.PUBLISH:
 			ack := auto
@@ -120,6 +124,11 @@ func (c *Client) readLoop() {
 			if auto {
 				_ = c.Send(&mqttx.Packet{Type: mqttx.PUBCOMP, PacketID: p.PacketID})
 			}
+		}
+		if p.Type == mqttx.PUBLISH || p.Type == mqttx.PUBREL {
+			c.mu.Lock()
+			c.broadcast()
+			c.mu.Unlock()
 		}
 	}
 }
